@@ -29,6 +29,35 @@ def strip(n):
     return n
 
 
+class _Filter:
+    """Forward only the selected rule families to the real context (used when another property shares these rules)."""
+
+    def __init__(self, ctx, only):
+        self._c, self._only = ctx, only
+
+    def _on(self, rule):
+        return self._only is None or rule in self._only
+
+    def ok(self, rule, *a, **k):
+        if self._on(rule):
+            self._c.ok(rule, *a, **k)
+
+    def fail(self, rule, *a, **k):
+        if self._on(rule):
+            self._c.fail(rule, *a, **k)
+
+    def check(self, cond, rule, *a, **k):
+        if self._on(rule):
+            return self._c.check(cond, rule, *a, **k)
+        return cond
+
+    def floor(self, *a, **k):
+        return self._c.floor(*a, **k)
+
+    def __getattr__(self, n):
+        return getattr(self._c, n)
+
+
 def check(fb, ctx):
     ctx.explanation = (
         "MATCH: the matcher of a rule predicate against a fact (match_preds) is a table over every pair of Term variants: "
@@ -44,7 +73,8 @@ def check(fb, ctx):
     ctx.trusted = ["rustc pattern resolution", "std HashSet/HashMap semantics"]
 
 
-def shared_rules(fb, ctx, pid):
+def shared_rules(fb, ctx, pid, only=None):
+    ctx = _Filter(ctx, only)
     tv = [f"{TERM}::{v}" for v in fb.variants(TERM)]
     ctx.floor("datalog::Term variants", len(tv), 10)
 
